@@ -19,9 +19,14 @@ type irCase struct {
 	G     string          `json:"g,omitempty"`
 	Bit   int             `json:"bit,omitempty"`
 	Envs  json.RawMessage `json:"envs,omitempty"`
+	O     int             `json:"o,omitempty"`
+	X     []int           `json:"x,omitempty"`
 }
 
 type irEvent struct {
+	O      int             `json:"o"`
+	X      []int           `json:"x"`
+	Res    [][]int         `json:"res"`
 	Case   string          `json:"case"`
 	Op     string          `json:"op"`
 	Nodes  []Node          `json:"nodes"`
@@ -101,7 +106,33 @@ func irHandler(raw json.RawMessage, emit func(any)) {
 	}
 	es := Build(c.Nodes)
 	d := NewDag()
-	ev := irEvent{Case: c.Case, Op: c.Op, W: c.W, G: c.G, Bit: c.Bit, Envs: c.Envs, Args: []int{}, Outs: []int{}}
+	ev := irEvent{Case: c.Case, Op: c.Op, W: c.W, G: c.G, Bit: c.Bit, Envs: c.Envs, Args: []int{}, Outs: []int{},
+		O: c.O, X: c.X, Res: [][]int{}, Nodes: []Node{}}
+	if ev.X == nil {
+		ev.X = []int{}
+	}
+	if c.Op == "optable" {
+		// one operation on constants, first operand fixed, second operand all 256 byte values
+		ev.Panic = guard(func() {
+			x := expr.NewConst(bytesOf(c.X), expr.Width(len(c.X)))
+			for y := 0; y < 256; y++ {
+				yc := expr.NewConst([]byte{byte(y)}, expr.Width8)
+				var e expr.Expr
+				if c.O == 0 {
+					e = expr.NewLess(x, yc, expr.NewConst([]byte{1}, 1), expr.NewConst([]byte{2}, 1), expr.Width(c.W))
+				} else {
+					e = expr.NewBinary(expr.BinaryOp(c.O), x, yc, expr.Width(c.W))
+				}
+				r, ok := exprtransform.ConstFold(e).(expr.Const)
+				if !ok {
+					panic("harness: folding an operation on constants did not give a constant")
+				}
+				ev.Res = append(ev.Res, ints(r.Bytes()))
+			}
+		})
+		emit(ev)
+		return
+	}
 	var in expr.Expr
 	if c.Root > 0 {
 		in = es[c.Root]
